@@ -667,6 +667,214 @@ def end_to_end_real_python_functions():
             print('      ' + json.dumps(r)[:230])
 
 
+# the invariant of driver/main.py::check_incremental (actual vs expected scheduler counters) with its LATERAL made single-row
+CHECK = """
+SELECT t.*, u.* FROM
+(
+  SELECT user, inst_coll,
+    CAST(COALESCE(SUM(state = 'Ready' AND runnable), 0) AS SIGNED) AS actual_n_ready_jobs,
+    CAST(COALESCE(SUM(cores_mcpu * (state = 'Ready' AND runnable)), 0) AS SIGNED) AS actual_ready_cores_mcpu,
+    CAST(COALESCE(SUM(state = 'Running' AND (NOT cancelled)), 0) AS SIGNED) AS actual_n_running_jobs,
+    CAST(COALESCE(SUM(cores_mcpu * (state = 'Running' AND (NOT cancelled))), 0) AS SIGNED) AS actual_running_cores_mcpu,
+    CAST(COALESCE(SUM(state = 'Creating' AND (NOT cancelled)), 0) AS SIGNED) AS actual_n_creating_jobs,
+    CAST(COALESCE(SUM(state = 'Ready' AND cancelled), 0) AS SIGNED) AS actual_n_cancelled_ready_jobs,
+    CAST(COALESCE(SUM(state = 'Running' AND cancelled), 0) AS SIGNED) AS actual_n_cancelled_running_jobs,
+    CAST(COALESCE(SUM(state = 'Creating' AND cancelled), 0) AS SIGNED) AS actual_n_cancelled_creating_jobs
+  FROM
+  (
+    SELECT job_groups.user, jobs.state, jobs.cores_mcpu, jobs.inst_coll,
+      (jobs.always_run OR NOT (jobs.cancelled OR t.cancelled IS NOT NULL)) AS runnable,
+      (NOT jobs.always_run AND (jobs.cancelled OR t.cancelled IS NOT NULL)) AS cancelled
+    FROM job_groups
+    LEFT JOIN jobs ON job_groups.batch_id = jobs.batch_id AND job_groups.job_group_id = jobs.job_group_id
+    LEFT JOIN LATERAL (
+      SELECT 1 AS cancelled
+      FROM job_group_self_and_ancestors
+      INNER JOIN job_groups_cancelled
+        ON job_group_self_and_ancestors.batch_id = job_groups_cancelled.id AND
+           job_group_self_and_ancestors.ancestor_id = job_groups_cancelled.job_group_id
+      WHERE job_groups.batch_id = job_group_self_and_ancestors.batch_id AND
+            job_groups.job_group_id = job_group_self_and_ancestors.job_group_id
+      LIMIT 1
+    ) AS t ON TRUE
+    WHERE job_groups.`state` = 'running'
+  ) as v
+  GROUP BY user, inst_coll
+) as t
+INNER JOIN
+(
+  SELECT user, inst_coll,
+    CAST(COALESCE(SUM(n_ready_jobs), 0) AS SIGNED) AS expected_n_ready_jobs,
+    CAST(COALESCE(SUM(ready_cores_mcpu), 0) AS SIGNED) AS expected_ready_cores_mcpu,
+    CAST(COALESCE(SUM(n_running_jobs), 0) AS SIGNED) AS expected_n_running_jobs,
+    CAST(COALESCE(SUM(running_cores_mcpu), 0) AS SIGNED) AS expected_running_cores_mcpu,
+    CAST(COALESCE(SUM(n_creating_jobs), 0) AS SIGNED) AS expected_n_creating_jobs,
+    CAST(COALESCE(SUM(n_cancelled_ready_jobs), 0) AS SIGNED) AS expected_n_cancelled_ready_jobs,
+    CAST(COALESCE(SUM(n_cancelled_running_jobs), 0) AS SIGNED) AS expected_n_cancelled_running_jobs,
+    CAST(COALESCE(SUM(n_cancelled_creating_jobs), 0) AS SIGNED) AS expected_n_cancelled_creating_jobs
+  FROM user_inst_coll_resources
+  GROUP BY user, inst_coll
+) AS u
+ON t.user = u.user AND t.inst_coll = u.inst_coll
+WHERE actual_n_ready_jobs != expected_n_ready_jobs
+   OR actual_ready_cores_mcpu != expected_ready_cores_mcpu
+   OR actual_n_running_jobs != expected_n_running_jobs
+   OR actual_running_cores_mcpu != expected_running_cores_mcpu
+   OR actual_n_creating_jobs != expected_n_creating_jobs
+   OR actual_n_cancelled_ready_jobs != expected_n_cancelled_ready_jobs
+   OR actual_n_cancelled_running_jobs != expected_n_cancelled_running_jobs
+   OR actual_n_cancelled_creating_jobs != expected_n_cancelled_creating_jobs
+"""
+
+
+E1242 = [0]
+
+
+async def _history(seed):
+    rng = random.Random(seed)
+    t = [1700000000.0]
+    db = batchapp.seeded_db(random.Random(seed), clock=lambda: t[0])
+    app = await batchapp.make_driver_app(db)
+    from batch.front_end import front_end as fe
+    from batch.driver import job as dj
+    from batch.driver import main as dm
+    from batch.driver.canceller import Canceller
+    g = app['db']
+    bid = await fe._create_batch({'billing_project': batchapp.BILLING_PROJECT, 'token': f'tok{seed}', 'n_jobs': 0}, batchapp.USERDATA, g)
+    insts = []
+    for i in range(2):
+        inst = await batchapp.create_instance(app, f'w{i}', cores=4)
+        await inst.activate(f'10.0.0.{i}', 1000)
+        insts.append(inst)
+    res = [{'name': 'compute/n1-preemptible/1', 'quantity': 1000}]
+    n_updates = 0; n_groups = 0; n_jobs = 0; att = 0
+    ops = 0
+    canc = Canceller(app)
+    for step in range(rng.randint(10, 30)):
+        r = rng.random(); ops += 1
+        t[0] += 1
+        if r < 0.2:
+            nj = rng.randint(0, 4); ng = rng.randint(0, 2) if nj or rng.random()<0.5 else 1
+            if nj == 0 and ng == 0: continue
+            try: upd = await fe._create_batch_update(bid, f'u{seed}-{step}', nj, ng, batchapp.USER, g)
+            except Exception as e:
+                if type(e).__name__ != 'HTTPBadRequest': raise
+                continue
+            if ng:
+                specs = []
+                for k in range(ng):
+                    if k > 0 and rng.random() < 0.5: specs.append({'job_group_id': k+1, 'in_update_parent_id': rng.randint(1, k)})
+                    else: specs.append({'job_group_id': k+1, 'absolute_parent_id': rng.randint(0, n_groups)})
+                try: await fe._create_job_groups(g, bid, upd[0], batchapp.USER, specs)
+                except Exception as e:
+                    if type(e).__name__ != 'HTTPBadRequest': raise
+                    continue
+            if nj:
+                js = []
+                for k in range(nj):
+                    parents = [p for p in range(1, k+1) if rng.random() < 0.3]
+                    absp = [p for p in range(1, n_jobs+1) if rng.random() < 0.15]
+                    gid = rng.randint(0, n_groups + ng)
+                    js.append(batchapp.job_spec(k+1, parents=parents, absolute_parents=absp, job_group=gid, always_run=rng.random()<0.2, cpu=rng.choice(['0.25','1','2'])))
+                try: await fe._create_jobs(batchapp.USERDATA, js, bid, upd[0], app)
+                except Exception as e:
+                    if type(e).__name__ != 'HTTPBadRequest': raise
+                    continue
+            await fe._commit_update(app, bid, upd[0], batchapp.USER, g)
+            n_groups += ng; n_jobs += nj
+        elif r < 0.55:
+            ready = [x for x in db.tables['jobs'] if x['state'] == 'Ready']
+            if not ready: continue
+            j = rng.choice(ready); inst = rng.choice(insts); att += 1
+            try: rv = await g.execute_and_fetchone('CALL schedule_job(%s, %s, %s, %s);', (bid, j['job_id'], f'a{att}', inst.name))
+            except Exception as e:
+                if e.args[0] != 1242: raise
+                E1242[0] += 1
+                continue
+            if rng.random() < 0.7:
+                try: await dj.mark_job_started(app, bid, j['job_id'], f'a{att}', inst, int(t[0]*1000), res)
+                except Exception as e:
+                    if e.args[0] != 1242: raise
+                    E1242[0] += 1
+        elif r < 0.8:
+            running = [x for x in db.tables['jobs'] if x['state'] in ('Running',)]
+            if not running: continue
+            j = rng.choice(running)
+            a = [x for x in db.tables['attempts'] if x['job_id'] == j['job_id'] and x['attempt_id'] == j['attempt_id']][0]
+            st = rng.choice(['Success','Success','Failed','Error'])
+            await dj.mark_job_complete(app, bid, j['job_id'], a['attempt_id'], j['job_group_id'], a['instance_name'], st, [0, 5], int(t[0]*1000)-5, int(t[0]*1000), 'completed', res)
+            if rng.random() < 0.2:  # duplicate message
+                await dj.mark_job_complete(app, bid, j['job_id'], a['attempt_id'], j['job_group_id'], a['instance_name'], st, [0, 5], int(t[0]*1000)-5, int(t[0]*1000), 'completed', res)
+        elif r < 0.88:
+            gid = rng.randint(0, n_groups)
+            try: await fe._cancel_job_group(app, bid, gid)
+            except Exception as e:
+                if type(e).__name__ != 'NonExistentJobGroupError': raise
+        elif r < 0.95:
+            await canc.cancel_cancelled_ready_jobs_loop_body()
+            await canc.cancel_cancelled_running_jobs_loop_body()
+        else:
+            inst = rng.choice(insts)
+            if inst.state == 'active':
+                await inst.deactivate('preempted')
+                i2 = await batchapp.create_instance(app, f'w{len(insts)}-{step}', cores=4); await i2.activate('10.0.1.1', 2000)
+                insts[insts.index(inst)] = i2
+        if False: print('step', step, 'r=%.2f' % r, [(x['job_id'], x['state'], x['cancelled'], x['always_run'], x['job_group_id'], x['n_pending_parents'], x['update_id']) for x in db.tables['jobs']], 'cancelled groups', [x['job_group_id'] for x in db.tables['job_groups_cancelled']], 'updates', [(x['update_id'], x['committed']) for x in db.tables['batch_updates']], 'groups', [(x['job_group_id'], x['state'], x['update_id']) for x in db.tables['job_groups']], 'anc', [(x['job_group_id'], x['ancestor_id']) for x in db.tables['job_group_self_and_ancestors']])
+        bad = db.query(CHECK)
+        if bad:
+            return seed, step, bad
+    await dm.check_resource_aggregation(g)
+    await dm.delete_committed_job_groups_inst_coll_staging_records(g)
+    await dm.delete_prev_cancelled_job_group_cancellable_resources_records(g)
+    app['task_manager'].shutdown()
+    return None
+
+
+
+@test
+def random_histories_keep_scheduler_counters_consistent():
+    """random committed-update histories through the REAL python entry points; after every op the scheduler counters of
+    user_inst_coll_resources must equal a recount from jobs (the repository's own audit query)"""
+    async def go():
+        bad = []
+        for seed in range(40):
+            r = await _history(seed)
+            if r:
+                bad.append(r)
+        return bad
+    bad = asyncio.run(go())
+    print(f'    40 random histories; counter mismatches: {len(bad)}; statements failing with MySQL error 1242 (is_job_cancelled with two '
+          f'cancelled ancestors, a defect of migration 119): {E1242[0]}')
+    assert not bad, bad[:1]
+
+
+@test
+def doubly_cancelled_ancestor_behaviour():
+    """informational: cancel a sub-group, then the batch -> is_job_cancelled() returns 2 rows -> error 1242 in schedule_job"""
+    async def go():
+        db = batchapp.seeded_db(random.Random(0), clock=lambda: 1700000000.0)
+        app = await batchapp.make_driver_app(db)
+        from batch.front_end import front_end as fe
+        g = app['db']
+        bid = await fe._create_batch({'billing_project': batchapp.BILLING_PROJECT, 'token': 'tok1', 'n_jobs': 1}, batchapp.USERDATA, g)
+        await fe._create_batch_update(bid, 'u1', 1, 1, batchapp.USER, g)
+        await fe._create_job_groups(g, bid, 1, batchapp.USER, [{'job_group_id': 1, 'absolute_parent_id': 0}])
+        await fe._create_jobs(batchapp.USERDATA, [batchapp.job_spec(1, in_update_job_group=1, always_run=True)], bid, 1, app)
+        await fe._commit_update(app, bid, 1, batchapp.USER, g)
+        inst = await batchapp.create_instance(app, 'w1')
+        await inst.activate('10.0.0.1', 1)
+        await fe._cancel_job_group(app, bid, 1)
+        await fe._cancel_job_group(app, bid, 0)
+        try:
+            rv = await g.execute_and_fetchone('CALL schedule_job(%s, %s, %s, %s);', (bid, 1, 'a1', 'w1'))
+            out = f'rc={rv["rc"]}'
+        except pymysql.err.MySQLError as e:
+            out = f'{type(e).__name__}{e.args}'
+        app['task_manager'].shutdown()
+        return out
+    print('    schedule_job of an always_run job whose group and batch are both cancelled ->', asyncio.run(go()))
+
+
 def main():
     failed = 0
     for t in TESTS:
